@@ -238,7 +238,11 @@ Definition kind_bit (a : answer) : N :=
   | _ => 0
   end.
 
-Record fstate := { f_prev : db; f_log : list grant; f_now : N; f_idx : N; f_mask : N }.
+(* f_diff: the first step (index, code) at which the model did not admit the implementation's
+   answer or store -- the fold goes on after a
+   disagreement, with the implementation's rows as the store, so that a later failure of the
+   property predicate still turns the disagreement into a failing input *)
+Record fstate := { f_prev : db; f_log : list grant; f_now : N; f_idx : N; f_mask : N; f_diff : option (N * N) }.
 
 (* which: 1 = C01, 9 = C09, 10 = C10 *)
 Definition pred_of (which : N) (s : fstate) (a : ialloc) : N :=
@@ -252,40 +256,41 @@ Definition pred_of (which : N) (s : fstate) (a : ialloc) : N :=
 Definition recorded_expiry (a : ialloc) (ip secs : N) : N :=
   match find_addr ip (i_rows a) with Some r => r_expiry r | None => i_thi a + secs end.
 
+Definition note_diff (s : fstate) (code : N) : option (N * N) :=
+  match f_diff s with Some d => Some d | None => Some (f_idx s, code) end.
+
 Fixpoint fold_events (which : N) (s : fstate) (es : list ievent) : list N :=
   match es with
-  | [] => v_ok (f_mask s)
+  | [] => match f_diff s with Some (i, c) => v_diff [i; c] | None => v_ok (f_mask s) end
   | ITick d :: es' =>
-      fold_events which {| f_prev := f_prev s; f_log := f_log s; f_now := f_now s + d; f_idx := f_idx s + 1; f_mask := f_mask s |} es'
+      fold_events which {| f_prev := f_prev s; f_log := f_log s; f_now := f_now s + d; f_idx := f_idx s + 1;
+                           f_mask := f_mask s; f_diff := f_diff s |} es'
   | IRestart rows :: es' =>
-      if rows_same (f_prev s) rows
-      then fold_events which {| f_prev := rows; f_log := f_log s; f_now := f_now s; f_idx := f_idx s + 1;
-                                f_mask := N.lor (f_mask s) 32 |} es'
-      else v_diff [f_idx s; 3]
+      fold_events which {| f_prev := rows; f_log := f_log s; f_now := f_now s; f_idx := f_idx s + 1;
+                           f_mask := N.lor (f_mask s) 32;
+                           f_diff := if rows_same (f_prev s) rows then f_diff s else note_diff s 3 |} es'
   | IAlloc a :: es' =>
       if negb ((f_now s <=? i_tlo a) && (i_tlo a <=? i_thi a)) then v_bad
       else
       let p := pred_of which s a in
       if negb (p =? 0) then v_viol p
       else
-      match model_step (f_prev s) a with
-      | (0, ans) =>
-          let log' := match i_ans a with
-                      | IGranted ip secs k =>
-                          let sv := adv_secs a ip secs k in
-                          {| g_client := o_client (i_op a); g_addr := ip; g_time := i_thi a;
-                             g_expiry := recorded_expiry a ip sv; g_secs := sv;
-                             g_min := o_min (i_op a); g_max := o_max (i_op a) |} :: f_log s
-                      | _ => f_log s
-                      end in
-          fold_events which {| f_prev := i_rows a; f_log := log'; f_now := i_thi a; f_idx := f_idx s + 1;
-                               f_mask := N.lor (f_mask s) (kind_bit ans) |} es'
-      | (code, _) => v_diff [f_idx s; code]
-      end
+      let '(code, ans) := model_step (f_prev s) a in
+      let log' := match i_ans a with
+                  | IGranted ip secs k =>
+                      let sv := adv_secs a ip secs k in
+                      {| g_client := o_client (i_op a); g_addr := ip; g_time := i_thi a;
+                         g_expiry := recorded_expiry a ip sv; g_secs := sv;
+                         g_min := o_min (i_op a); g_max := o_max (i_op a) |} :: f_log s
+                  | _ => f_log s
+                  end in
+      fold_events which {| f_prev := i_rows a; f_log := log'; f_now := i_thi a; f_idx := f_idx s + 1;
+                           f_mask := N.lor (f_mask s) (kind_bit ans);
+                           f_diff := if code =? 0 then f_diff s else note_diff s code |} es'
   end.
 
 Definition check_pool (which : N) (ts : list N) : list N :=
   match tok_history ts with
-  | Some es => fold_events which {| f_prev := []; f_log := []; f_now := 0; f_idx := 0; f_mask := 0 |} es
+  | Some es => fold_events which {| f_prev := []; f_log := []; f_now := 0; f_idx := 0; f_mask := 0; f_diff := None |} es
   | None => v_bad
   end.
